@@ -64,6 +64,18 @@ CHECKS = {
              "obligations of this check when present in the evidence (names glv:*, powersofx:*, loop:*); what is not listed there is not claimed.",
         tech="LLVM-IR symbolic execution with loop cutting (one inductive step from an arbitrary invariant state); QF_BV VCs and integer lemmas in z3; native replay",
         ref="5/C06"),
+    "C09": dict(
+        cat="proof",
+        text="Encoding<G1Affine|G2Affine, compressed|uncompressed>::encode/decode are executed symbolically from the IR with every one of the 48/96/192 bytes a "
+             "symbolic bit-vector and coordinates as canonical 384-bit integers; byte-level field functions carry their exact specifications (mask to 381 bits "
+             "and reduce, big-endian bytes, negation, order of internal representations), algebraic ones (square, multiply, add, legendre, square root, subgroup "
+             "test) are uninterpreted functions constrained by the sqrt contract, absence of zero divisors and odd group order. z3 decides: decode(encode(P)) = "
+             "(true, P) for every point/identity, checked and unchecked, all four forms; for EVERY byte string, checked decode accepts only if re-encoding the "
+             "result reproduces the bytes exactly (canonicity: rejects unreduced coordinates, stray flag bits, wrong form, malformed identity) and the result "
+             "passed the curve/subgroup tests. Counterexample patterns are transplanted onto a real point and replayed natively.",
+        note="Trusted: specifications of the intercepted field functions (C02/C04), is_on_curve (C05), subgroup test = [r]P (C06), T5. Both forms describing the same point follows from the two round trips.",
+        tech="LLVM-IR symbolic execution with symbolic bytes (QF_BV) and uninterpreted field operations with instantiated axioms (QF_UFBV) in z3; native replay",
+        ref="5/C09"),
     "C11": dict(
         cat="proof",
         text="src/wkdibe/api.cpp is executed symbolically from the IR with the group layer replaced by formal discrete logarithms (polynomials in "
